@@ -9,6 +9,10 @@ import datetime
 from core import AnalysisBroken, NotConst
 import fold
 import convdecode
+from cmpdecode import _conv
+
+OTHER = (("DT_YD", "yd", "__ymd_to_yd"), ("DT_YWD", "ywd", "__ymd_to_ywd"), ("DT_YMCW", "ymcw", "__ymd_to_ymcw"), ("DT_DAISY", "daisy", "__ymd_to_daisy"),
+         ("DT_LDN", "ldn", ("__ymd_to_daisy", "__daisy_to_ldn")), ("DT_MDN", "mdn", ("__ymd_to_daisy", "__daisy_to_mdn")))
 
 MD = [0, 31, 28, 31, 30, 31, 30, 31, 31, 30, 31, 30, 31]
 
@@ -121,6 +125,42 @@ def _worker(ys):
                         e = _round_wday(d, w, forw, nxt)
                         if got != (e.year, e.month, e.day):
                             bad.setdefault("weekday", []).append((d.isoformat(), "%sweekday %d%s" % ("" if forw else "-", w, " --next" if nxt else ""), str(got), e.isoformat()))
+        # ---- weekday targets for dates held in the other representations: dround_ddur converts to a day number and back, so the
+        # result must be the representation (as the library's converter, decided by C01, produces it) of the expected date
+        def callc(name, *args):
+            fo = fold.Folder(lib.func(name), calls={}, inline=True, max_steps=400000)
+            fo._tabs = tabs
+            return fo.run(list(args))
+
+        def held(dt_, tag, mem, conv):
+            r = _conv(lambda t, nm, *a: callc(nm, *a), lib, conv, {"y": dt_.year, "m": dt_.month, "d": dt_.day})
+            return {"typ": E[tag], mem: r} if not isinstance(r, dict) else {"typ": E[tag], **{mem + "." + k: v for k, v in r.items()}}
+        for d in _days(y, False):
+            if not (d.day in (1, 28) or d.day >= 30 or (d.month in (1, 12) and d.day in (2, 27, 29))):
+                continue
+            for tag, mem, conv in OTHER:
+                dd = held(d, tag, mem, conv)
+                for nxt in (0, 1):
+                    for forw in (True, False):
+                        for w in range(1, 8):
+                            dur = {"durtyp": E["DT_DURYMCW"], "ymcw.w": w, "neg": 0 if forw else 1}
+                            n += 1
+                            fo = fold.Folder(fn, calls={"serror": lambda *a: 0}, inline=True, max_steps=600000)
+                            fo._tabs = tabs
+                            try:
+                                r = fo.run([dict(dd), dur, nxt])
+                            except fold.Abort as ex:
+                                r = "abort: %s" % ex
+                            e = _round_wday(d, w, forw, nxt)
+                            exp = held(e, tag, mem, conv)
+                            got = {k: v for k, v in r.items() if k == "typ" or k.startswith(mem)} if isinstance(r, dict) else r
+                            if isinstance(got, dict) and tag == "DT_YMCW" and w == 7:
+                                # Sunday may be spelt 0 or 7 in a month-count-weekday value
+                                got = {k: (7 if k == "ymcw.w" and v == 0 else v) for k, v in got.items()}
+                                exp = {k: (7 if k == "ymcw.w" and v == 0 else v) for k, v in exp.items()}
+                            if got != exp:
+                                bad.setdefault("weekday", []).append(("%s held as %s" % (d.isoformat(), tag), "%sweekday %d%s" % ("" if forw else "-", w, " --next" if nxt else ""),
+                                                                      str(got), "%s = %s" % (e.isoformat(), exp)))
         # ---- dates held as week dates: ISO week targets; dates held as business-day dates: business-day targets
         def rnd2(dd, dur, nxt, keys):
             fo = fold.Folder(fn, calls={"serror": lambda *a: 0}, inline=True, max_steps=600000)
@@ -194,7 +234,8 @@ def run_parallel(R, P, rule, every=False, jobs=12):
     if fn is None:
         raise AnalysisBroken("dround_ddur vanished")
     R.saw(fn)
-    E = {k: lib.enum_value(k) for k in ("DT_YMD", "DT_DURD", "DT_DURYMD", "DT_DURYMCW", "DT_YWD", "DT_BIZDA", "DT_DURWK", "DT_DURBD")}
+    E = {k: lib.enum_value(k) for k in ("DT_YMD", "DT_DURD", "DT_DURYMD", "DT_DURYMCW", "DT_YWD", "DT_BIZDA", "DT_DURWK", "DT_DURBD", "DT_YD", "DT_YMCW",
+                                       "DT_DAISY", "DT_LDN", "DT_MDN")}
     if None in E.values():
         raise AnalysisBroken("%s: tags not found" % rule)
     years = convdecode.class_years()
